@@ -213,7 +213,7 @@ func kafkaBatchRun(res *mon.Result, c *schemaCase, file string, idx int, exps []
 		}
 		histAt = len(hist)
 	}
-	for s := 0; s < 12000 && !lateMark; s++ {
+	for s := 0; s < 60000 && !lateMark; s++ { // watchdog (about 1000x the usual time), not a verdict
 		poll()
 		if !lateMark {
 			time.Sleep(5 * time.Millisecond)
@@ -307,7 +307,7 @@ func kafkaBatchRun(res *mon.Result, c *schemaCase, file string, idx int, exps []
 	// tidy up: after Shutdown the route flushes what it still holds (the remaining markers); only then may the
 	// broker go away, or the route's flush would retry against a dead address for ever
 	rt.Shutdown()
-	for s := 0; s < 6000 && len(marks) < nMark; s++ {
+	for s := 0; s < 20000 && len(marks) < nMark; s++ {
 		poll()
 		if len(marks) < nMark {
 			time.Sleep(5 * time.Millisecond)
